@@ -33,16 +33,22 @@ var fixTables = []fixTable{
 	{"t2", []string{"t2", "t2.csv"}, []string{"c1", "c4"}},
 	{"my table", []string{"my table", "my table.csv"}, []string{"col 1", "a\"b", "x'y", "b`q", "日本語"}},
 	{"tmp", []string{"tmp"}, []string{"a", "b"}},
+	{"t6", []string{"t6", "t6.json"}, []string{"k1", "k2"}},  // JSON file (formatFixtureFiles)
+	{"t4", []string{"t4", "t4.jsonl"}, []string{"k1", "k2"}}, // JSON Lines file
+	{"t3", []string{"t3", "t3.ltsv"}, []string{"k1", "k2"}},  // LTSV file
 }
 
 type qg struct {
-	t      *rapid.T
-	ansi   bool
-	prep   bool
-	feats  map[string]bool
-	nAlias int
-	ctes   []fixTable
-	used   map[string]bool // table reference names of the FROM clause being rendered
+	t           *rapid.T
+	ansi        bool
+	prep        bool
+	feats       map[string]bool
+	nAlias      int
+	intoPending bool // the outermost query gets an INTO clause (select_into_query)
+	intoNow     bool
+	noTail      bool // joinToks adds no ";" / trailing comment (the text is embedded in a larger statement)
+	ctes        []fixTable
+	used        map[string]bool // table reference names of the FROM clause being rendered
 }
 
 func (g *qg) feat(s string)                  { g.feats[s] = true }
@@ -124,6 +130,11 @@ func isKeywordLike(s string) bool {
 // anyway) quoted with a random spelling of every character that can be escaped.
 func (g *qg) ident(name string) string {
 	if simpleIdent.MatchString(name) && !isKeywordLike(name) && g.n("identbare", 0, 9) < 7 {
+		return name
+	}
+	if keywordIdents[strings.ToUpper(name)] && g.n("kwidentbare", 0, 9) < 7 {
+		// TIES, NULLS, ROWS, CSV, JSON, JSONL, FIXED, LTSV are keywords the grammar also accepts as identifiers
+		g.feat("keyword_identifier_bare")
 		return name
 	}
 	g.feat("quoted_ident")
@@ -234,6 +245,10 @@ func (g *qg) colRef(c col) []string {
 	}
 	g.feat("qualified_column")
 	q := g.ident(c.tbl)
+	if c.tbl == "STDIN" && g.n("stdinbare", 0, 3) != 0 {
+		g.feat("stdin_qualifier")
+		q = g.kw("STDIN")[0] // the grammar's STDIN '.' identifier alternative
+	}
 	if g.n("coldotsp", 0, 9) == 0 {
 		return []string{q, ".", name}
 	}
@@ -676,7 +691,7 @@ func (g *qg) analytic(d int, inner ectx) []string {
 	return cat(one(g.pick("anagg", aggNames)), g.paren(cat(distinct, arg())), g.kw("OVER"), g.analyticClause(inner, true))
 }
 
-var aliasNames = []string{"k1", "k2", "x", "n", "my col", "a\"b", "it's", "x`y", "日本", "select", "from", "a\\b", "tab\there", "nl\nx", "Ü", "1st", "a.b", "c1"}
+var aliasNames = []string{"k1", "k2", "x", "n", "my col", "a\"b", "it's", "x`y", "日本", "select", "from", "a\\b", "tab\there", "nl\nx", "Ü", "1st", "a.b", "c1", "rows", "ties", "NULLS", "csv", "Json", "jsonl", "fixed", "LTSV"}
 
 func (g *qg) alias() string {
 	g.nAlias++
@@ -697,7 +712,7 @@ func (g *qg) tableRef(d int) ([]string, []col) {
 		dup := g.used != nil && g.used[strings.ToUpper(refName)] && g.n("allowdup", 0, 19) != 0
 		if force || dup || g.chance("talias", 40) {
 			g.feat("table_alias")
-			a := g.pick("taliasname", []string{"a", "b", "x", "t", "u", "my alias", "T1"})
+			a := g.pick("taliasname", []string{"a", "b", "x", "t", "u", "my alias", "T1", "rows", "csv", "json"})
 			for i := 0; g.used != nil && g.used[strings.ToUpper(a)] && i < 5; i++ {
 				a = a + "2"
 			}
@@ -725,8 +740,12 @@ func (g *qg) tableRef(d int) ([]string, []col) {
 		g.feat("subquery_table")
 		q, names := g.query(d-1, g.n("sqcols", 1, 3), true, false)
 		return withAlias(g.paren(q), "", names, true)
-	case k == 8:
+	case k == 8 || (k == 12 && g.n("tobj12", 0, 1) == 0):
 		g.feat("table_object")
+		if g.n("tobjnew", 0, 3) != 0 {
+			obj, ref, names, force := g.tableObject()
+			return withAlias(obj, ref, names, force)
+		}
 		switch g.n("tobj", 0, 5) {
 		case 0:
 			return withAlias(cat(g.kw("CSV"), g.paren(cat(one("','"), one(","), one(g.ident("t1.csv"))))), "t1", []string{"c1", "c2", "c3"}, false)
@@ -750,7 +769,10 @@ func (g *qg) tableRef(d int) ([]string, []col) {
 		}
 		switch k {
 		case 0:
-			return cat(g.kw("STDIN")), nil
+			if g.used != nil {
+				g.used["STDIN"] = true
+			}
+			return cat(g.kw("STDIN")), []col{{"STDIN", "c1"}}
 		case 1:
 			return one("file:./t1.csv"), []col{{"", "c1"}}
 		case 2:
@@ -930,6 +952,8 @@ func (g *qg) from(d int) ([]string, []col) {
 
 // entity renders SELECT ... [FROM ...] [WHERE] [GROUP BY] [HAVING]; ncols>0 fixes the number of fields; named: every field gets an alias.
 func (g *qg) entity(d int, ncols int, named bool, oneRow bool) ([]string, []string, ectx) {
+	into := g.intoNow
+	g.intoNow = false
 	var fromToks []string
 	var cols []col
 	hasFrom := g.chance("hasfrom", 75)
@@ -1023,6 +1047,15 @@ func (g *qg) entity(d int, ncols int, named bool, oneRow bool) ([]string, []stri
 			names = append(names, "?")
 		}
 	}
+	if into {
+		// select_into_query: SELECT fields INTO variables [FROM ...]; mostly as many variables as fields
+		g.feat("into_clause")
+		nv := n
+		if g.n("intomismatch", 0, 9) == 0 {
+			nv = g.n("intonv", 1, 3)
+		}
+		out = cat(out, g.kw("INTO"), g.list(nv, func() []string { return one(g.pick("intovar", []string{"@v1", "@v2", "@v3", "@V1"})) }))
+	}
 	out = cat(out, fromToks)
 	if hasFrom && g.chance("where", 40) {
 		g.feat("where")
@@ -1041,6 +1074,8 @@ func (g *qg) entity(d int, ncols int, named bool, oneRow bool) ([]string, []stri
 
 // query renders a full select query. named: fields carry known aliases (returned). oneRow: prefer a single-row result.
 func (g *qg) query(d int, ncols int, named bool, oneRow bool) ([]string, []string) {
+	into := g.intoPending
+	g.intoPending = false
 	var out []string
 	savedCtes := g.ctes
 	defer func() { g.ctes = savedCtes }()
@@ -1113,7 +1148,8 @@ func (g *qg) query(d int, ncols int, named bool, oneRow bool) ([]string, []strin
 		oneRow = false
 	} else {
 		var e []string
-		e, names, octx = g.entity(d, n, named, oneRow)
+		g.intoNow = into
+		e, names, octx = g.entity(d, n, named, oneRow || into)
 		out = cat(out, e)
 	}
 	if g.chance("orderby", 30) {
@@ -1216,7 +1252,7 @@ func (g *qg) joinToks(toks []string) string {
 		b.WriteString(tk)
 	}
 	s := b.String()
-	if style == 2 {
+	if style == 2 && !g.noTail {
 		switch g.n("tail", 0, 5) {
 		case 0:
 			s += ";"
@@ -1234,6 +1270,7 @@ func (g *qg) joinToks(toks []string) string {
 func genQueryToks(t *rapid.T, prep, ansi bool) ([]string, *qg) {
 	g := &qg{t: t, prep: prep, ansi: ansi, feats: map[string]bool{}}
 	d := g.n("depth", 1, 3)
+	g.intoPending = g.chance("into", 3)
 	toks, _ := g.query(d, 0, false, false)
 	if g.chance("forupdate", 3) {
 		g.feat("for_update")
